@@ -222,8 +222,7 @@ class T:
                     hi_ += ph << i
                 if isinstance(e, int): e = z3.IntVal(e)
                 return e, 0, hi_
-            # and of a value with an all-ones/all-zero mask word (sext of i1): ite form
-            raise NotImplementedError('and of two symbolic words')
+            return s.bitop_approx(x, ch, 'and')
         if op == Z3_OP_BXOR:
             consts = [c for c in ch if z3.is_bv_value(c)]; rest = [c for c in ch if not z3.is_bv_value(c)]
             if len(consts) == 1 and len(rest) == 1 and consts[0].as_long() == (1 << (w - 1)):
@@ -233,7 +232,7 @@ class T:
                 return z3.If(a >= H, a - H, a + H), 0, M - 1
             if len(consts) == 1 and len(rest) == 1 and consts[0].as_long() == M - 1:
                 a, l, h = s.bv(rest[0]); return (M - 1) - a, (M - 1) - h, (M - 1) - l
-            raise NotImplementedError('xor of symbolic words')
+            return s.bitop_approx(x, ch, 'xor')
         if op == Z3_OP_BNOT:
             a, l, h = s.bv(ch[0]); return (M - 1) - a, (M - 1) - h, (M - 1) - l
         if op == Z3_OP_BOR:
@@ -244,7 +243,7 @@ class T:
             tot = None; hi = 0; used = 0
             for c, a, l, h in es:
                 sup = s.support(c)
-                if sup is None or (sup & used): raise NotImplementedError('or of overlapping symbolic words')
+                if sup is None or (sup & used): return s.bitop_approx(x, ch, 'or')
                 used |= sup; tot = a if tot is None else tot + a; hi += h
             return tot, 0, hi
         if op == Z3_OP_ITE:
@@ -259,6 +258,20 @@ class T:
             if b[1] <= 0: return z3.If(b[0] == 0, a[0], a[0] % b[0]), 0, a[2]
             return a[0] % b[0], 0, min(a[2], b[2] - 1)
         raise NotImplementedError(str(x.decl()))
+    def bitop_approx(s, x, ch, op):
+        """bitwise and/or/xor of overlapping symbolic words: a fresh integer constrained by facts that hold for the exact operation
+           (a sound over-approximation: 'unsat' stays valid, a 'sat' model is re-validated by exact evaluation / replay)"""
+        w = x.size(); M = 1 << w; es = [s.bv(c) for c in ch]; v = s.fresh('bit' + op); s.approx = getattr(s, 'approx', 0) + 1
+        vals = [e for e, _, _ in es]
+        cons = [v >= 0, v < M]
+        if op == 'or':
+            cons += [v >= e for e in vals] + [v <= sum(vals)] + [(v == 0) == z3.And([e == 0 for e in vals])]
+        elif op == 'and':
+            cons += [v <= e for e in vals]
+            if len(vals) == 2: cons.append(v >= vals[0] + vals[1] - (M - 1))
+        else:
+            if len(vals) == 2: cons += [v <= vals[0] + vals[1], (v == 0) == (vals[0] == vals[1]), v >= vals[0] - vals[1], v >= vals[1] - vals[0]]
+        s.side.append(z3.And(cons)); return v, 0, M - 1
     def support(s, x):
         """bit mask of possibly non-zero bits if structurally evident"""
         op = x.decl().kind(); ch = x.children(); w = x.size()
